@@ -84,6 +84,10 @@ impl RestorerJob {
             });
 
             for (task_id, job_task) in job.tasks.iter_mut() {
+                // Tasks of the previous submits of this (open) job have been restored already
+                if !matches!(job_task.state, JobTaskState::Waiting) {
+                    continue;
+                }
                 if let Some(task) = self.tasks.get_mut(task_id) {
                     if task.crash_counter > 0 || task.instance_id.is_some() {
                         new_tasks.adjust_instance_id_and_crash_counters.insert(
